@@ -3,6 +3,12 @@ package main
 import (
 	"fmt"
 	"math/big"
+	"os"
+	"strconv"
+	"strings"
+
+	"github.com/MinterTeam/minter-go-node/coreV2/transaction"
+	"github.com/MinterTeam/minter-go-node/coreV2/types"
 )
 
 func init() {
@@ -66,9 +72,172 @@ func runLedgerMon(pid string, seed uint64, n int, out, stats string) {
 		}
 		_ = big.NewInt
 	}
+	// directed order scenarios
+	var s01, s02 []MonitorFailure
+	sb, st := orderScenarios(seed, 1+n/3, &s01, &s02)
+	blocks += sb
+	txs += st
+	nontriv += 1 + n/3
+	if pid == "C02" {
+		mon = append(mon, s02...)
+	} else {
+		mon = append(mon, s01...)
+	}
+	dist["order-scenario"] = 1 + n/3
 	c.Close()
-	writeStats(stats, &Stats{Property: pid, Seed: seed, Cases: n, Ops: txs, NonTrivial: nontriv,
-		Rule: "seeded history of 20-80 blocks (0-6 txs per block of 33 kinds incl. a malformed stream, absences, byzantine evidence, testnet periods, stake period 12) executed on the real node; the monitor recomputes every sum of the property from the node's export after every block; non-trivial = at least one accepted state-changing tx; histories are distinct by seed",
+	writeStats(stats, &Stats{Property: pid, Seed: seed, Cases: n + 1 + n/3, Ops: txs, NonTrivial: nontriv,
+		Rule: "directed order scenarios (committed orders partially filled and then cancelled / filled again / expiring in the same block, restarts) + seeded history of 20-80 blocks (0-6 txs per block of 33 kinds incl. a malformed stream, absences, byzantine evidence, testnet periods, stake period 12) executed on the real node; the monitor recomputes every sum of the property from the node's export after every block; non-trivial = at least one accepted state-changing tx; histories are distinct by seed",
 		Dist: dist, Samples: samples, Monitor: mon,
-		Extra: map[string]interface{}{"blocks": blocks, "txs": txs, "accepted_txs": okTxs, "codes": codes}})
+		Extra: map[string]interface{}{"blocks": blocks, "txs": txs, "accepted_txs": okTxs, "codes": codes, "scenario_trades_filling_orders": scenFills, "scenario_cancels_in_the_block_of_a_fill": scenCancelsAfterFill}})
+}
+
+// conservationStep applies the C01/C02 monitors to one block (prev -> current export).
+func conservationStep(n *Node, prev **Holdings, prevEm **big.Int, c01, c02 *[]MonitorFailure, where string) {
+	e := n.Export()
+	cur := holdings(&e)
+	em := new(big.Int).Set(n.App.VerifAppDB().Emission())
+	at := fmt.Sprintf("height %d (%s)", n.Height, where)
+	for _, neg := range cur.Negative {
+		*c02 = append(*c02, MonitorFailure{What: "C02: " + neg + " at " + at, Key: "c02-negative", Replay: where})
+	}
+	for id, vol := range cur.Volume {
+		held := cur.Held[id]
+		if held == nil {
+			held = big.NewInt(0)
+		}
+		if id != 0 && held.Cmp(vol) != 0 {
+			*c01 = append(*c01, MonitorFailure{What: fmt.Sprintf("C01: coin %d volume %s != sum of holdings %s at %s", id, vol, held, at), Key: "c01-custom", Replay: where})
+		}
+	}
+	if *prev != nil {
+		dBase := new(big.Int).Sub(cur.baseTotal(), (*prev).baseTotal())
+		dEm := new(big.Int).Sub(em, *prevEm)
+		if dBase.Cmp(dEm) != 0 {
+			*c01 = append(*c01, MonitorFailure{What: fmt.Sprintf("C01: base coin total changed by %s but emission by %s at %s", dBase, dEm, at), Key: "c01-base", Replay: where})
+		}
+	}
+	*prev, *prevEm = cur, em
+}
+
+var scenFills, scenCancelsAfterFill int
+
+// orderScenarios: directed histories around limit orders that general random histories rarely produce:
+// an order that is already committed gets partially filled and is then cancelled / expires / is filled
+// again in the SAME block; fills by the commission swap of another transaction; cancel after restart.
+func orderScenarios(seed uint64, count int, c01, c02 *[]MonitorFailure) (blocks, txs int) {
+	for i := 0; i < count; i++ {
+		s := seed*7777 + uint64(i)
+		r := NewRng(s)
+		where := fmt.Sprintf("order scenario %d (seed %d)", i, s)
+		n := newNode(&GenesisSpec{NAccounts: 5, Balance: pip(10000000), NVals: 2, ValOwnersFrom: 3})
+		a, b, c := n.Accts[0], n.Accts[1], n.Accts[2]
+		var prev *Holdings
+		var prevEm *big.Int
+		step := func(txs_ [][]byte) *BlockResult {
+			br := n.Block(txs_, nil)
+			blocks++
+			txs += len(txs_)
+			if br.Panic != "" {
+				*c01 = append(*c01, MonitorFailure{What: "panic: " + br.Panic, Key: "c07-panic", Replay: where})
+				return br
+			}
+			conservationStep(n, &prev, &prevEm, c01, c02, where)
+			return br
+		}
+		step(nil)
+		step([][]byte{n.MkTx(a, transaction.TypeCreateToken, transaction.CreateTokenData{Name: "t", Symbol: types.StrToCoinSymbol("ORDTOKEN"), InitialAmount: pip(5000000), MaxSupply: pip(9000000), Mintable: true, Burnable: true}, 0, 0, 1, nil)})
+		tok := types.CoinID(n.App.CurrentState().App().GetCoinsCount())
+		step([][]byte{n.MkTx(a, transaction.TypeCreateSwapPool, transaction.CreateSwapPoolData{Coin0: 0, Coin1: tok, Volume0: pip(int64(1000 + r.Intn(20000))), Volume1: pip(int64(1000 + r.Intn(20000)))}, 0, 0, 1, nil),
+			n.MkTx(a, transaction.TypeSend, transaction.SendData{Coin: tok, To: b.Addr, Value: pip(1000000)}, 0, n.Nonce(a)+2, 1, nil)})
+		// orders on both sides at prices near the pool price
+		x0, x1, _ := n.App.CurrentState().Swap().SwapPool(0, tok)
+		price := func(sell *big.Int, num, den int64, r0, r1 *big.Int) *big.Int {
+			v := new(big.Int).Mul(sell, r1)
+			v.Div(v, r0)
+			v.Mul(v, Z(num))
+			return v.Div(v, Z(den))
+		}
+		var orderTxs [][]byte
+		na, nb := n.Nonce(a)+1, n.Nonce(b)+1
+		for k := 0; k < 2+r.Intn(3); k++ {
+			sv := pip(int64(5 + r.Intn(200)))
+			// a sells base for token slightly above the pool price; b sells token for base
+			orderTxs = append(orderTxs, n.MkTx(a, transaction.TypeAddLimitOrder, transaction.AddLimitOrderData{CoinToSell: 0, ValueToSell: sv, CoinToBuy: tok, ValueToBuy: price(sv, int64(1001+r.Intn(12)), 1000, x0, x1)}, 0, na, 1, nil))
+			na++
+			sv2 := pip(int64(5 + r.Intn(200)))
+			orderTxs = append(orderTxs, n.MkTx(b, transaction.TypeAddLimitOrder, transaction.AddLimitOrderData{CoinToSell: tok, ValueToSell: sv2, CoinToBuy: 0, ValueToBuy: price(sv2, int64(1001+r.Intn(12)), 1000, x1, x0)}, 0, nb, 1, nil))
+			nb++
+		}
+		br := step(orderTxs)
+		var ids []uint32
+		ownerA := map[uint32]bool{}
+		for ti, tr := range br.Txs {
+			if tr.Code == 0 {
+				if id, err := strconv.Atoi(tr.Tags["tx.order_id"]); err == nil {
+					ids = append(ids, uint32(id))
+					ownerA[uint32(id)] = ti%2 == 0
+				}
+			}
+		}
+		if r.Intn(3) == 0 {
+			n.Restart()
+		}
+		// several rounds: partial fills and removals / further fills in the same block
+		for round := 0; round < 3+r.Intn(4); round++ {
+			var blk [][]byte
+			nc := n.Nonce(c) + 1
+			na, nb = n.Nonce(a)+1, n.Nonce(b)+1
+			// c trades against the pool in a random direction with an amount that usually crosses the best order partially
+			p0, p1, _ := n.App.CurrentState().Swap().SwapPool(0, tok)
+			amt := new(big.Int).Div(p0, Z(int64(15+r.Intn(200))))
+			dirBase := r.Bool()
+			if !dirBase {
+				amt = new(big.Int).Div(p1, Z(int64(15+r.Intn(200))))
+			}
+			if dirBase {
+				blk = append(blk, n.MkTx(c, transaction.TypeSellSwapPool, transaction.SellSwapPoolDataV260{Coins: []types.CoinID{0, tok}, ValueToSell: amt, MinimumValueToBuy: Z(0)}, 0, nc, 1, nil))
+			} else {
+				blk = append(blk, n.MkTx(b, transaction.TypeSellSwapPool, transaction.SellSwapPoolDataV260{Coins: []types.CoinID{tok, 0}, ValueToSell: amt, MinimumValueToBuy: Z(0)}, 0, nb, 1, nil))
+				nb++
+			}
+			// then, in the same block, the owners cancel some of their orders (partially filled or not)
+			for _, id := range ids {
+				if r.Intn(2) == 0 {
+					if ownerA[id] == (r.Intn(8) != 0) {
+						blk = append(blk, n.MkTx(a, transaction.TypeRemoveLimitOrder, transaction.RemoveLimitOrderData{ID: id}, 0, na, 1, nil))
+						na++
+					} else {
+						blk = append(blk, n.MkTx(b, transaction.TypeRemoveLimitOrder, transaction.RemoveLimitOrderData{ID: id}, 0, nb, 1, nil))
+						nb++
+					}
+				}
+			}
+			rb := step(blk)
+			if os.Getenv("DBG") != "" && len(rb.Txs) > 0 { fmt.Println("TRADE", rb.Txs[0].Code, rb.Txs[0].Tags["tx.pools"], len(ids)); for _, tr := range rb.Txs[1:] { fmt.Println("  CANCEL", tr.Code) } }
+			if len(rb.Txs) > 0 && rb.Txs[0].Code == 0 && strings.Contains(rb.Txs[0].Tags["tx.pools"], "\"orders\":[{") {
+				scenFills++
+				for _, tr := range rb.Txs[1:] {
+					if tr.Code == 0 {
+						scenCancelsAfterFill++
+					}
+				}
+			}
+			if r.Intn(4) == 0 {
+				n.Restart()
+			}
+			if r.Intn(3) == 0 {
+				step(nil)
+			}
+		}
+		// let the remaining orders expire (expiry period 5*stakePeriod blocks, checked every stakePeriod/2)
+		for k := 0; k < 6*stakePeriod+2; k++ {
+			var blk [][]byte
+			if k%7 == 3 {
+				blk = append(blk, n.MkTx(c, transaction.TypeSellSwapPool, transaction.SellSwapPoolDataV260{Coins: []types.CoinID{0, tok}, ValueToSell: pip(int64(1 + r.Intn(30))), MinimumValueToBuy: Z(0)}, 0, 0, 1, nil))
+			}
+			step(blk)
+		}
+		n.Cleanup()
+	}
+	return
 }
